@@ -695,7 +695,7 @@ PROPS = {
         'correspondence': 'FixedPoint.runHistory / solveRootGoal with the persistent cache (lean/ChalkModel/FixedPoint.lean) vs one chalk_recursive::RecursiveSolver answering a history (outcome kind, work counter, Cache entries through the cfg(chalk_verif) accessor)',
     },
     'C11': {
-        'extra_props': ['C11fp'],
+        'extra_props': ['C11fp', 'C11C12mixed'],
         'level': 'proof',
         'rule': "MODEL lines: abstract instances are READ OFF THE REAL CODE (for every goal reachable from the root goals the harness asks chalk for the clauses solve_from_clauses would try - custom clauses, program_clauses_that_could_match, program_clauses_for_env, could_match filter - instantiates each against the goal with the real InferenceTable as Fulfill::new_with_clause does and canonicalizes the conditions as Fulfill::prove does; programs outside the abstraction of FixedPoint.lean are refused and counted) for three families: ground dependency graphs of <= 12 structs over an inductive and a #[coinductive] trait (chains with/without base case, diamonds, one cycle with/without base case entered through a tail, nested SCCs, two SCCs sharing nodes, random graphs; all-inductive / all-coinductive / mixed kinds; several impls per type), goals with unknowns (the F10 family: blanket impls `impl<X> Qi for X where X: Qj` + per trait no or >= 2 facts), and ProgGen programs with closed atomic goals whose goal closure is finite (<= 48 goals). One request line = one SCRIPT of calls on ONE real RecursiveSolver (cache on or off, overflow depth): per call the outcome kind (unique/none/ambig/panic:<site>), the hook's work counter and the hook-dumped cache must equal the model's, exactly. C11 scripts: for a root goal with n callback calls in a clean run, first call = solve_limited with the callback false from its k-th call on, k = 0..n+1 (capped at 12; set VERIF_FP_NONMONOTONE for 'false at the k-th call only' in the model lines too), or always false; then a second limited solve (callback false at its 2nd call), a plain solve of the same goal and of another goal; cache on and off. ORACLE (real code, SLG, recursive, recursive without cache): corpus/C11 first (F3, F16 inputs), generated subjects as C10; per goal every schedule - false ONLY at call k and false FROM call k on for k = 0..n+1 (capped 16 / 60), always, never - on a fresh solver: the limited answer must be the full answer or Ambig; then a second limited solve, solve(goal), solve(other goal) on the same instance must equal the fresh answers. A later difference that the same history WITHOUT interruption also shows is attributed to the C10 finding it reproduces. Non-trivial as C10",
         'technique': 'Lean 4 theorems about the executable model with the should_continue oracle at the head of solve_iteration + exact differential correspondence + exhaustive interruption schedules on both real solvers',
@@ -704,7 +704,7 @@ PROPS = {
         'correspondence': 'FixedPoint.runCall with Call.oracle / Call.dflt (should_continue test of solve_iteration, interrupted flag) vs RecursiveSolver::solve_limited with a scripted callback',
     },
     'C12': {
-        'extra_props': ['C12fp'],
+        'extra_props': ['C12fp', 'C11C12mixed'],
         'level': 'proof',
         'rule': "MODEL lines: abstract instances are READ OFF THE REAL CODE (for every goal reachable from the root goals the harness asks chalk for the clauses solve_from_clauses would try - custom clauses, program_clauses_that_could_match, program_clauses_for_env, could_match filter - instantiates each against the goal with the real InferenceTable as Fulfill::new_with_clause does and canonicalizes the conditions as Fulfill::prove does; programs outside the abstraction of FixedPoint.lean are refused and counted) for three families: ground dependency graphs of <= 12 structs over an inductive and a #[coinductive] trait (chains with/without base case, diamonds, one cycle with/without base case entered through a tail, nested SCCs, two SCCs sharing nodes, random graphs; all-inductive / all-coinductive / mixed kinds; several impls per type), goals with unknowns (the F10 family: blanket impls `impl<X> Qi for X where X: Qj` + per trait no or >= 2 facts), and ProgGen programs with closed atomic goals whose goal closure is finite (<= 48 goals). One request line = one SCRIPT of calls on ONE real RecursiveSolver (cache on or off, overflow depth): per call the outcome kind (unique/none/ambig/panic:<site>), the hook's work counter and the hook-dumped cache must equal the model's, exactly. C12 scripts: for a root goal with w work steps in a clean run, first call panics at work step b for b = 0..min(w,40) (the hook's budget = an injected panic between any two database callbacks that see different contexts), optionally a second panicking call, then plain solves of the goal and two more goals; cache on and off. ORACLE (real code; SLG, recursive; recursive without cache in the thorough tier): a RustIrDatabase wrapper (all methods delegated to the lowered Program, incl. interner and unification_database; program_clauses_for_env re-enters the wrapper) counts every callback; corpus/C12 first (F7, F19 inputs), generated subjects as C10; per goal N = callbacks of a clean solve (quick: N <= 150, thorough: <= 2000): for EVERY n = 1..N a fresh solver, the n-th callback panics (catch_unwind), in 1/4 of the cases a second injected panic during a later solve, then the SAME instance answers the goal and two further goals: answers must equal the fresh solver's, a panic is a failure. Non-trivial as C10",
         'technique': 'Lean 4 theorems about the executable model with a panic transition that leaves stack and search graph as they are + exact differential correspondence (budget panics) + exhaustive crash-point enumeration on both real solvers',
